@@ -196,7 +196,7 @@ def run_one(case):
             clean["c"] = np.array(ctx_values(n, 0), dtype=float)
     N = factor_nulls(fname, df, reuse, clean)
     if N is None:
-        return False, [], True
+        return False, [], "no-oracle"
     if cx is not None:
         df_call = df.drop(columns=["c"])
         clean_call = clean.drop(columns=["c"]) if clean is not None else None
@@ -222,9 +222,10 @@ def run_one(case):
         # lag() on a narwhals series, str columns into a sparse matrix): the case is skipped and counted.
         base = (n, (0, 0, 0) + (((cx[0], 0),) if cx else ()), ik, td, fname, "drop", ("none", None), entry, out)
         if case == base:
-            return False, [], True
-        if run_one(base)[2]:
-            return False, [], True
+            return False, [], "baseline-fails:" + type(exc).__name__
+        sk = run_one(base)[2]
+        if sk:
+            return False, [], sk
     check_index = out == "pandas" and entry != "NarwhalsMaterializer"
 
     def rows(expected_kept, area):
@@ -441,42 +442,79 @@ def _describe(case):
     }
 
 
+def _fallback_clause(case):
+    na = case[5] if len(case) > 5 else "drop"
+    return {"drop": "C06.drop.rows-by-position", "raise": "C06.raise.iff", "ignore": "C06.ignore.all-rows"}.get(na, "C06.drop.rows-by-position")
+
+
 def _worker(cases):
+    """Every case is guarded: whatever the (possibly changed) library returns or raises inside set-up helpers,
+    the oracle, the attribution re-runs or the witness construction becomes a failure record of that case."""
     n_eval, keys, samples, failures = 0, set(), [], []
-    n_skipped = 0
+    skips = {}
     seen_cls = {}
     for case in cases:
-        nontrivial, fails, skipped = run_one(case)
         n_eval += 1
+        try:
+            nontrivial, fails, skipped = run_one(case)
+        except Exception as e:
+            failures.append(K.oracle_failure(e, _fallback_clause(case), repr(case)[:600]))
+            continue
         if skipped:
-            n_skipped += 1
+            skips.setdefault(skipped, [0, repr(case)[:600]])[0] += 1
             continue
         if nontrivial:
             keys.add(K.khash(case))
-        if len(samples) < 2 and nontrivial:
-            samples.append(_describe(case))
-        for clause, symptom, detail in fails:
-            cls = classify(case, clause, symptom)
-            seen_cls[(clause, cls)] = seen_cls.get((clause, cls), 0) + 1
-            w = {"case": _describe(case)}
-            if seen_cls[(clause, cls)] <= K.MAX_REPORTED_PER_CLASS:
-                w["code"] = repro(case, clause)
-            failures.append({"clause": clause, "cls": cls, "witness": w, "detail": detail})
-    if n_skipped:
-        failures.append({"skipped": n_skipped})
+        try:
+            if len(samples) < 2 and nontrivial:
+                samples.append(_describe(case))
+            for clause, symptom, detail in fails:
+                try:
+                    cls = classify(case, clause, symptom)
+                except Exception as e:
+                    cls = f"unclassified({type(e).__name__} during attribution) | " + symptom
+                seen_cls[(clause, cls)] = seen_cls.get((clause, cls), 0) + 1
+                w = {"case": _describe(case)}
+                if seen_cls[(clause, cls)] <= K.MAX_REPORTED_PER_CLASS:
+                    try:
+                        w["code"] = repro(case, clause)
+                    except Exception as e:
+                        w["code_unavailable"] = f"{type(e).__name__}: {e}"
+                failures.append({"clause": clause, "cls": cls, "witness": w, "detail": detail})
+        except Exception as e:
+            failures.append(K.oracle_failure(e, _fallback_clause(case), repr(case)[:600]))
+    if skips:
+        failures.append({"skipped": sum(v[0] for v in skips.values()), "reasons": skips})
     return n_eval, keys, samples, failures
 
 
 def _merge(ctx, b, rep, results):
-    skipped = 0
+    skipped, reasons, total = 0, {}, 0
     for n_eval, keys, samples, failures in results:
         b.add_counts(n_eval, keys, samples)
-        skipped += sum(f["skipped"] for f in failures if "skipped" in f)
+        total += n_eval
+        for f in failures:
+            if "skipped" in f:
+                skipped += f["skipped"]
+                for why, (cnt, first) in f.get("reasons", {}).items():
+                    r = reasons.setdefault(why, [0, first])
+                    r[0] += cnt
         rep.absorb([f for f in failures if "skipped" not in f])
+    base_fail = {k: v for k, v in reasons.items() if k.startswith("baseline-fails")}
+    n_base = sum(v[0] for v in base_fail.values())
+    if total and n_base > 0.25 * total:
+        # The skip rule is meant for the odd unsupported configuration.  When a large share of the null-free,
+        # default-policy, no-caller-set builds fail, the builds themselves are broken: report, do not skip.
+        why, (cnt, first) = max(base_fail.items(), key=lambda kv: kv[1][0])
+        rep.fail("C06.drop.completes", "null-free-baseline-" + why.replace("baseline-fails:", "raises:"),
+                 {"case": first, "skipped_evaluations": n_base, "of": total},
+                 f"{n_base} of {total} evaluations had to be skipped because the same call fails even on the null-free frame "
+                 f"with the default policy and no caller set (most frequent: {why}, first case {first})")
     rep.note()
     if skipped:
         ctx.notes.append(f"bounded:{b.name}: {skipped} evaluations skipped because the same call fails on the null-free "
-                         "frame without a caller set (configuration unsupported for reasons outside C06)")
+                         "frame without a caller set (configuration unsupported for reasons outside C06) or has no oracle: "
+                         + ", ".join(f"{k} x{v[0]}" for k, v in sorted(reasons.items())))
 
 
 # --------------------------------------------------------------------------- enumeration
@@ -517,7 +555,7 @@ def cross_cases(rng, reps, s_kinds):
             yield (n, masks, ik, td, fname, na, (skind, extra), entry, out)
 
 
-def run_bounded(ctx):
+def _run_bounded(ctx):
     rng = random.Random(ctx.seed * 7919 + 6)
     ctx.assume(
         "A-C06-evaluated-factor: 'evaluated factor is null at row i' is decided by evaluating the factor "
@@ -547,9 +585,10 @@ def run_bounded(ctx):
         exhaustive=True,
         bound=f"rows<={max_rows}, 3 columns, all 2^(3*rows) null patterns",
     ) as b:
-        rep = K.Reporter(ctx, b)
-        tasks = list(exhaustive_cases(max_rows, ex_formulas))
-        _merge(ctx, b, rep, K.run_pool(_worker, tasks, chunk=400))
+        rep = K.Reporter(ctx, b, fallback_clause="C06.drop.rows-by-position")
+        with K.guard(ctx, "C06.drop.rows-by-position", "null-patterns"):
+            tasks = list(exhaustive_cases(max_rows, ex_formulas))
+            _merge(ctx, b, rep, K.run_pool(_worker, tasks, chunk=400))
 
     reps = 40 if ctx.thorough else 3
     s_kinds = S_KINDS + (("rand",) if ctx.thorough else ())
@@ -566,12 +605,20 @@ def run_bounded(ctx):
         exhaustive=False,
         bound="rows<=6, 3 columns",
     ) as b:
-        rep = K.Reporter(ctx, b)
-        tasks = list(cross_cases(rng, reps, s_kinds))
-        _merge(ctx, b, rep, K.run_pool(_worker, tasks, chunk=300))
+        rep = K.Reporter(ctx, b, fallback_clause="C06.drop.rows-by-position")
+        with K.guard(ctx, "C06.drop.rows-by-position", "config-cross"):
+            tasks = list(cross_cases(rng, reps, s_kinds))
+            _merge(ctx, b, rep, K.run_pool(_worker, tasks, chunk=300))
     if not ctx.explanation:
         ctx.explanation = (
             "bounded stand-in only (no deductive obligations registered in this run): runtime contracts taken from "
             "the C06 statement, evaluated on the real entry points over exhaustively enumerated null patterns and "
             "a seeded cross of formulas, entry points, caller sets, policies, indexes and outputs"
         )
+
+
+def run_bounded(ctx):
+    """Never raises because of what the library under test returns or raises: anything that slips past the
+    per-case guards is recorded as a violation (class oracle-not-applicable:<Type>) and the run ends normally."""
+    with K.guard(ctx, "C06.drop.rows-by-position", "c06.run_bounded"):
+        _run_bounded(ctx)
